@@ -208,8 +208,13 @@ pub open spec fn opt_skip(o: Option<&Opts>) -> bool { match o { Some(x) => x.ski
 	}
 //@loop 1
 		invariant
-			r.inv(), !r.hit_eof(), r.stable() == hash, hash == opt_hash(opts),
-			state_swf(&state), within_input_bound(&state), sizes_wf(&state.payload_sizes),
+			r.inv(),
+			!r.hit_eof() /*[C07.loop_runs_without_eof]*/,
+			r.stable() == hash /*[C11.seek_only_when_not_hashing]*/,
+			hash == opt_hash(opts),
+			state_swf(&state) /*[C06.state_well_formed_between_events]*/,
+			within_input_bound(&state) /*[C06.within_input_bound]*/,
+			sizes_wf(&state.payload_sizes),
 			r.consumed().len() + r.rest().len() <= r0.len(), r0.len() <= 0x7fff_0000,
 			state.split_accumulator.actual_size <= r.consumed().len(),
 			state.bytes_read <= r.consumed().len() + 0xffff_ffff,
